@@ -77,7 +77,7 @@ Proof.
   set (p := pobs_of rets (settle (step repaired (hs h) e0)) (hrel h)).
   unfold mon. rewrite Eo, (parse_obs e rets _ _ Hr). fold p. rewrite mon1_eq.
   eexists _, _. split; [reflexivity|]. split; [|split; [|split]].
-  - intros pc Hin. apply in_app_or in Hin. destruct Hin as [Hin|Hin].
+  - intros pc Hin. rewrite (clause_10_8 p rets _ _ eq_refl), app_nil_r in Hin. apply in_app_or in Hin. destruct Hin as [Hin|Hin].
     2:{ destruct (facc_clauses m e p pc Hin) as [A B].
         destruct pc as [a b]. cbn in A, B. subst a. destruct b as [|[|[|[|[|[|[|[|b]]]]]]]]; try reflexivity; exfalso; lia. }
     rewrite (rp_const m h HP) in Hin. destruct (hconst h) eqn:Hc; [destruct Hin|]. destruct (HN eq_refl) as [Hcalled Hcur Hout Hem Hinv].
